@@ -2,7 +2,11 @@ package main
 
 // Property checks over the template corpus (C01 ...).
 
-import "fmt"
+import (
+	"fmt"
+	"regexp"
+	"strings"
+)
 
 var walkerFunctions = []string{"RedactMongoLog", "redactCommand", "redactNamespace", "redactQueryValues", "redactPipelineStage",
 	"redactArrayValuesWithKey", "redactArrayValues", "redactScalarValue", "redactString", "getOp", "traverseMapPath", "augmentOp",
@@ -105,7 +109,11 @@ func init() {
 	propChecks["C05"] = &PropCheck{
 		ID: "C05", Title: "Type-aware placeholders: each redacted leaf stays a valid member of its class",
 		Jobs: func(e *Engine, tier string) []*Job {
-			return templateJobs("H_c05", corpusFor(tier, nil), map[string]string{})
+			p := map[string]string{}
+			if tier == "quick" {
+				p["nonEmpty"] = "yes" // quick: literals non-empty (the empty literal is covered by the thorough tier and by C03/C04)
+			}
+			return templateJobs("H_c05", corpusFor(tier, nil), p)
 		},
 		Functions: walkerFunctions, Witness: []string{"emitted"},
 		Bounds:      treeBounds("encrypt mode; selective mode"),
@@ -115,7 +123,11 @@ func init() {
 	propChecks["C19"] = &PropCheck{
 		ID: "C19", Title: "Redacted output is a fixed point of redaction",
 		Jobs: func(e *Engine, tier string) []*Job {
-			return append(templateJobs("H_c19", corpusFor(tier, nil), map[string]string{}), templateJobs("H_c19", oddCorpus(tier), map[string]string{"fix": "ns+ip"})...)
+			ne := map[string]string{}
+			if tier == "quick" {
+				ne["nonEmpty"] = "yes"
+			}
+			return append(templateJobs("H_c19", corpusFor(tier, nil), ne), templateJobs("H_c19", oddCorpus(tier), map[string]string{"fix": "ns+ip"})...)
 		},
 		Functions: walkerFunctions, Witness: []string{"emitted"},
 		Bounds:      treeBounds("namespace / field-name pseudonymisation, encrypt mode, selective mode; e-mail-shaped replacement text"),
@@ -155,6 +167,59 @@ func init() {
 		Assumptions: []string{"collision-freeness of SHA-256 truncated to 64 bits is outside the claim: injectivity is shown relative to the 8-byte digest (equal pseudonyms imply equal digests, all 8 bytes used)",
 			"cross-process stability: HashName reaches no clock, randomness or environment call (any such call would abort the path as unmodelled)"},
 		Trusted: commonTrusted,
+	}
+	propChecks["C14"] = &PropCheck{
+		ID: "C14", Title: "Selective mode redacts exactly the values under a matching field name",
+		Jobs: func(e *Engine, tier string) []*Job {
+			family := []string{`^(ssn|email|phoneNumber)$`, `(?i)^ssn$`, `secret`}
+			var jobs []*Job
+			specs := corpusFor(tier, func(t tplSpec) bool { return !t.Tags["search"] && !strings.Contains(t.Name, "search") })
+			for fi, pat := range family {
+				re := regexp.MustCompile(pat)
+				for v := range e.vocab {
+					if !strings.ContainsAny(v, " \n%") && re.MatchString(v) {
+						panic("regexp family member " + pat + " matches vocabulary word " + v)
+					}
+				}
+				for si, sp := range specs {
+					if tier == "quick" && (si+fi)%3 != 0 {
+						continue // quick: each template with one member of the family (rotating)
+					}
+					tpl, err := ParseTemplate("L0", sp.Text)
+					if err != nil {
+						panic(err)
+					}
+					jobs = append(jobs, &Job{Name: sp.Name + "~re" + fmt.Sprint(fi), Harness: "H_c14", Lines: map[string]*Template{"L0": tpl}, Params: map[string]string{"regexp": pat}})
+				}
+			}
+			return jobs
+		},
+		Functions: walkerFunctions, Witness: []string{"emitted"},
+		Bounds: map[string]any{
+			"templates":     "engine/spec.go corpus without Atlas Search stages (the property lets search stages redact more)",
+			"regexp_family": "^(ssn|email|phoneNumber)$, (?i)^ssn$, secret (substring); each checked at load to match no word of the tool's vocabulary, so a match can only be a user field name",
+			"field_names":   "symbolic (class G), single components; whether a name matches is an uninterpreted predicate in verdict queries (both outcomes explored for every name)",
+			"flags":         "redactNumbers, redactBooleans, replacement: symbolic; namespaces / IPs off",
+		},
+		Assumptions: []string{"no obligation where the property text does not settle the expected behaviour: literals below a dotted key, literals that are siblings of a '$field' operand in an expression array"},
+		Trusted:     commonTrusted,
+	}
+	propChecks["C15"] = &PropCheck{
+		ID: "C15", Title: "Field-name redaction renames consistently, completely, only in chosen namespaces",
+		Jobs: func(e *Engine, tier string) []*Job {
+			specs := corpusFor(tier, func(t tplSpec) bool {
+				return !t.Tags["search"] && !strings.Contains(t.Name, "search") && (tier != "quick" || t.Tags["filter"] || t.Tags["update"] || t.Tags["doc"] || t.Tags["none"] || strings.Contains(t.Name, "/lit/str") || strings.Contains(t.Name, "concat"))
+			})
+			return templateJobs("H_c15", specs, map[string]string{"eager": "on"})
+		},
+		Functions: walkerFunctions, Witness: []string{"emitted"},
+		Bounds: map[string]any{
+			"templates": "engine/spec.go corpus (find / update / delete / insert / findAndModify / aggregate lines), field names symbolic",
+			"prefix":    "configured namespace prefix symbolic: every relation to the line's namespace (equal, proper prefix, unrelated) is explored by the solver",
+			"outside":   "plan-summary rewriting (byte-level; see not-covered note), Atlas Search stages",
+		},
+		Assumptions: []string{"pseudonym form as in C13; user field names are single non-empty components outside the operator vocabulary"},
+		Trusted:     commonTrusted,
 	}
 	propChecks["C01"] = &PropCheck{
 		ID:    "C01",
